@@ -150,6 +150,12 @@ class Sym:
     def astype(self, *a, **k):
         return self.like(self.arr.copy())
 
+    def tobytes(self):
+        return repr([repr(e) for e in self.arr.ravel()]).encode() + repr(self.arr.shape).encode()
+
+    def tolist(self):
+        return self.arr.tolist()
+
     def _arith(self, o, fn):
         if isinstance(o, Sym):
             o = o.arr
